@@ -382,6 +382,12 @@ use tokenmsg::InstantiateMsg as TokenInstantiateMsg;
             raw_of(msg.asset_infos[0], p.asset_infos[0]) && raw_of(msg.asset_infos[1], p.asset_infos[1]) && p.asset_decimals == msg.asset_decimals
             && p.requirements == msg.requirements && p.commission_rate == msg.commission_rate && p.contract_addr.0@ == canon_of(env.contract.address.0@) })
             && final(deps.storage).commission == Some(msg.commission_rate),
+        // the LP token is created with NO initial balances, the pair as its only minter, no cap, no admin and no funds: LP supply can then only
+        // come from the pair's own Mint messages (C05 / C07 / C03 rest on this)
+        /*[C05,C07,C03,C04 init.lp-token-message]*/ r is Ok ==> r->Ok_0.messages@.len() == 1 && r->Ok_0.messages@[0].id == INSTANTIATE_REPLY_ID && r->Ok_0.messages@[0].reply_on == ReplyOn::Success
+            && (r->Ok_0.messages@[0].msg matches CosmosMsg::Wasm(WasmMsg::Instantiate { admin, code_id, msg: m, funds, label }) && admin is None && code_id == msg.token_code_id && funds@.len() == 0
+                && exists|t: TokenInstantiateMsg| #![trigger bin_of(t)] m == bin_of(t) && t.initial_balances@.len() == 0
+                    && (t.mint matches Some(mr) && mr.minter@ == env.contract.address.0@ && mr.cap is None)),
 //%end
 //%fn contracts/halo-pair/src/contract.rs | - | query_pair_info
 //%%sig
